@@ -350,7 +350,7 @@ def compute (P : Prims) (b : Blob) : Res Digests :=
   | .err e => .err e
   | .panic e => .panic e
   | .ok () =>
-    let fuel := 2 * (jsizeMembers b.domain + jsizeMembers b.message) + 4
+    let fuel := 3 * (jsizeMembers b.domain + jsizeMembers b.message) + 4
     match structHash P b.types fuel (chars! "EIP712Domain") b.domain with
     | .err e => .err e
     | .panic e => .panic e
